@@ -103,6 +103,13 @@ def make_conn(default_namespace='root/cimv2', namespaces=('root/cimv2', 'root/ot
                 'k': 'c16', 'c': pywbem.CIMProperty('c', 'z', type='char16'),
                 'eo': pywbem.CIMProperty('eo', emb, type='string', embedded_object='object')}),
                 namespace=ns)
+            # non-ASCII text beyond latin-1 and beyond the BMP (cut points for truncating observers)
+            conn.CreateInstance(CIMInstance('TST_Other', {
+                'id': pywbem.Uint32(3), 'f': True, 't': 'x\u20ac\U0001F600y\u00e9'}), namespace=ns)
+            conn.CreateInstance(CIMInstance('TST_Assoc', {
+                'x': pywbem.CIMInstanceName('TST_Base', {'k': 'a'}, namespace=ns),
+                'y': pywbem.CIMInstanceName('TST_Other', {'id': pywbem.Uint32(3), 'f': True}, namespace=ns)}),
+                namespace=ns)
     if with_provider:
         conn.register_provider(EchoProvider(conn.cimrepository), namespaces=list(namespaces))
     return conn
